@@ -474,9 +474,9 @@ def gen_cases(rng, tier, fields, gfq, bigG=()):
 
     # ---- 2. square-free decomposition and complete factorisation
     for F in allF:
-        n = 30 if not big else 400
+        n = 36 if not big else 480
         for i in range(n):
-            kind = i % 10
+            kind = i % 12
             facs = []
             if kind == 0:      # many factors of one degree
                 d = rng.range(1, 3 if F.q < 10 else 2)
@@ -521,6 +521,17 @@ def gen_cases(rng, tier, fields, gfq, bigG=()):
             elif kind == 7:    # multiplicity p+1 / p-1
                 f = IRR.get(rng, F, 1, True)
                 facs = [(f, F.p + 1 if F.p <= 5 else 4)]; kl = "multiplicity p+1"
+            elif kind == 8:    # multiplicity pattern with gaps: slots in between stay trivial (1,3) (2,4) (1,4) (2,5) (1,3,5)
+                pat = rng.choice([(1, 3), (2, 4), (1, 4), (2, 5), (1, 3, 5), (3,), (4,), (1, 2, 4)])
+                seen = []
+                for e in pat:
+                    f = IRR.get(rng, F, rng.range(1, 2), True)
+                    if f not in [g for g, _ in seen]:
+                        seen.append((f, e))
+                facs = seen; kl = "multiplicities with gaps %s" % (pat,)
+            elif kind == 9:    # two different irreducibles of the same degree with different multiplicities
+                f = IRR.get(rng, F, rng.range(1, 2), True); g = IRR.get(rng, F, len(f) - 1, True)
+                facs = [(f, 1), (g, 2)] if f != g else [(f, 2)]; kl = "same degree, multiplicities 1 and 2"
             elif F.q ** 3 > 5000:      # large field: random product of random irreducibles (brute-force factoring is out of reach)
                 facs = [(IRR.get(rng, F, rng.range(1, 3)), rng.range(1, 2)) for _ in range(rng.range(1, 3))]; kl = "random product"
             else:
@@ -534,7 +545,7 @@ def gen_cases(rng, tier, fields, gfq, bigG=()):
                 P = product(F, facs)
             if len(P) - 1 > 24:
                 continue
-            nonmonic = (i % 7 == 3)
+            nonmonic = (i % 5 == 3)
             if nonmonic:
                 P = pscale(F, 2 + rng.below(F.q - 2) if F.q > 2 else 1, P)
             if facs is None:
@@ -634,6 +645,14 @@ def gen_cases(rng, tier, fields, gfq, bigG=()):
                         add("ixe", F, stream(rng, 600), [str(nn)], {"n": nn}, "degree %d" % nn)
                         add("ixe2", F, stream(rng, 600), [str(nn)], {"n": nn}, "degree %d" % nn)
                         add("randproot", F, stream(rng, 900), [str(nn)], {"n": nn}, "degree %d" % nn)
+
+    # ---- 5b. large requested degrees (irreducibility of the result decided by the python Rabin test)
+    for F in allF:
+        for nn in ((12, 17) if F.q < 10 else (9,)) if not big else ((12, 17, 24, 31) if F.q < 10 else (9, 13)):
+            add("randirr", F, stream(rng, 3000), [str(nn)], {"n": nn, "nomodel": nn > 12}, "large degree %d" % nn)
+            add("creux", F, stream(rng, 3000), [str(nn)], {"n": nn, "nomodel": nn > 12}, "large degree %d" % nn)
+            if F.q ** nn <= 10 ** 9:
+                add("ixe", F, stream(rng, 3000), [str(nn)], {"n": nn, "nomodel": True}, "large degree %d" % nn)
 
     # ---- 6. cyclotomic polynomials and composition with X^b (givpoly1cyclo.inl)
     for F in fields:
@@ -771,11 +790,42 @@ def verdict(c, payload):
     return ("?", "no oracle for " + c.op)
 
 
-def failing_class(c):
-    """input class used as the key of a finding: narrow, derived from the input only"""
+def matches_known_defect(c, payload):
+    """sqrfree / CZfactor on an input with a multiplicity >= p: Yun's recurrence without a p-th-root branch reports the
+    multiplicity e as e mod p and drops the factor when p | e.  True iff the output is exactly that."""
+    F, b = c.F, c.base()
+    red = {}
+    for f, e in c.meta.get("facs", []):
+        if e % F.p:
+            red.setdefault(e % F.p, []).append(pmonic(F, f))
+    try:
+        if b == "sqrfree":
+            m = re.match(r"^(\d+)\s+(\[.*\])$", payload)
+            L, _ = parse_list(m.group(2))
+            R = max(red) if red else 1
+            if int(m.group(1)) != R or len(L) != R:
+                return False
+            for i, g in enumerate(L):
+                exp = product(F, [(f, 1) for f in red.get(i + 1, [])])
+                if pmonic(F, g) != exp:
+                    return False
+            return True
+        L, E = parse_list(payload)
+        got = sorted((tuple(pmonic(F, f)), e) for f, e in zip(L, E))
+        return got == sorted((tuple(f), r) for r, fs in red.items() for f in fs)
+    except Exception:
+        return False
+
+
+def failing_class(c, payload=""):
+    """input class used as the key of a finding: narrow, derived from the input (and, for the one recorded defect, from
+    whether the output is exactly the recorded wrong answer)"""
     b = c.base()
     if b in ("sqrfree", "cz"):
-        return c.klass.split(";")[0]
+        k = c.klass.split(";")[0]
+        if k == "multiplicity>=char" and not matches_known_defect(c, payload):
+            return "multiplicity>=char, output differs from the recorded defect"
+        return k
     if b in ("irr", "irr2"):
         P = ppar(c.args[0])
         if len(P) <= 1:
@@ -817,7 +867,7 @@ def main(tier, replay=None):
     # 3. fields: the extension fields need the modulus GFqDom chose
     fields = [Fp(p) for p in ([2, 3, 5, 7, 13, 101] if tier == "quick" else [2, 3, 5, 7, 11, 13, 31, 101, 65521])]
     gfq = []
-    for p, k in ([(2, 2), (3, 2), (2, 3)] if tier == "quick" else [(2, 2), (3, 2), (2, 3), (5, 2), (2, 4), (3, 3)]):
+    for p, k in ([(2, 2), (3, 2), (2, 3), (5, 2)] if tier == "quick" else [(2, 2), (3, 2), (2, 3), (5, 2), (2, 4), (3, 3)]):
         # the modulus is chosen here (first monic irreducible of degree k in lexicographic order) and prescribed to GFqDom
         m = next(M for M in monics(Fp(p), k) if irreducible_brute(Fp(p), M))
         gfq.append(Fq(p, k, sum(c * p ** i for i, c in enumerate(m))))
@@ -870,7 +920,7 @@ def main(tier, replay=None):
         if v is not None:
             d = c.describe()
             d["meta"] = dict((k, x) for k, x in c.meta.items() if k in ("n", "d", "nomodel"))
-            chk.fail_input(SITE.get(b, b), failing_class(c), d, v[0], iout[i], v[1])
+            chk.fail_input(SITE.get(b, b), failing_class(c, payload), d, v[0], iout[i], v[1])
             continue
         if i in mout:
             ncorr += 1
